@@ -183,7 +183,7 @@ pub fn quiet_panics() {
 }
 
 /// `Err(location)` if `f` panicked.
-fn guarded<T>(f: impl FnOnce() -> T) -> Result<T, String> {
+pub fn guarded<T>(f: impl FnOnce() -> T) -> Result<T, String> {
     QUIET.store(true, std::sync::atomic::Ordering::SeqCst);
     let r = catch_unwind(AssertUnwindSafe(f));
     QUIET.store(false, std::sync::atomic::Ordering::SeqCst);
@@ -953,6 +953,7 @@ pub fn exec(ctx: &Ctx, op: &str) -> String {
         Some("ana") => op_ana(&w),
         Some("msp") => op_msp(&w),
         Some("dec") => op_dec(ctx, &w),
+        Some("strfn") => crate::c16::op_strfn(&w),
         _ => None,
     };
     r.unwrap_or_else(|| "unparsable".into())
